@@ -161,6 +161,7 @@ struct DomSim {
   std::unique_ptr<Doc> ext;
   ref::Value model;
   ref::Value ext_model;
+  std::string ext_dump0;
   bool dead = false;
   size_t heap0 = 0;
   static constexpr bool kTrack = std::is_same<Doc, TrackDoc>::value;
@@ -185,6 +186,27 @@ struct DomSim {
     ref::Value cs = ref::Value::mkS("cs");
     cs.skind = kStringConst;
     ext_model.o.emplace_back("k", cs);
+    // empty containers that still own their buffer (emptied by PopBack / RemoveMember, or only reserved),
+    // one of them with a lookup map: a deep copy must not share these buffers with its source
+    {
+      Alloc& ea = ext->GetAllocator();
+      N e1(kArray);
+      e1.PushBack(N(uint64_t(1)), ea);
+      e1.PopBack();
+      ext->AddMember("e1", std::move(e1), ea, false);
+      N e2(kObject);
+      e2.AddMember("t", N(uint64_t(1)), ea, false);
+      e2.CreateMap(ea);
+      e2.RemoveMember("t");
+      ext->AddMember("e2", std::move(e2), ea, false);
+      N e3(kArray);
+      e3.Reserve(17, ea);
+      ext->AddMember("e3", std::move(e3), ea, false);
+      ext_model.o.emplace_back("e1", ref::Value::mk(ref::Arr));
+      ext_model.o.emplace_back("e2", ref::Value::mk(ref::Obj));
+      ext_model.o.emplace_back("e3", ref::Value::mk(ref::Arr));
+    }
+    ext_dump0 = ext->Dump();
     model = ref::Value::mk(ref::Null);
     // non-initial start states ("start from non-initial states too")
     if (kInitJson[INIT]) {
@@ -322,7 +344,7 @@ struct DomSim {
     }
     if (o < X_MOVE0) {
       int q = o - X_COPYEXT0;
-      return resolve_model(model, q / 2, ix) && node_count(model) <= 18;
+      return resolve_model(model, q / 2, ix) && node_count(model) <= 15;
     }
     if (o < X_SWAP0) {
       int q = o - X_MOVE0;
@@ -352,6 +374,10 @@ struct DomSim {
       dead = true;
       ref::release(model);
       ref::release(ext_model);
+      {
+        std::string tmp;
+        ext_dump0.swap(tmp);
+      }
       if (kTrack) {
         ta::Ledger& L = ta::ledger();
         if (L.errors) ctx.violation("ledger_error", "dom_ledger_error", tr, "%s", L.first_error.c_str());
@@ -566,7 +592,7 @@ struct DomSim {
     if (back.HasParseError() || back.Dump() != got) ctx.violation("dump_reparse", "dom_dump_reparse", tr, "Parse(Dump()) failed or re-serialises differently: %s", got.c_str());
     if (!has_any_dups(model) && !(back == *doc)) ctx.violation("dump_reparse_equal", "dom_dump_reparse_equal", tr, "Parse(Dump()) is not == the original document: %s", got.c_str());
     // the external source must be untouched by CopyFrom
-    if (ext->Dump() != "{\"x\":[1,\"s\"],\"y\":{\"z\":null},\"k\":\"cs\"}") ctx.violation("source_modified", "dom_copy_source_modified", tr, "the source of CopyFrom changed: %s", ext->Dump().c_str());
+    if (ext->Dump() != ext_dump0) ctx.violation("source_modified", "dom_copy_source_modified", tr, "the source of CopyFrom changed: %s", ext->Dump().c_str());
   }
   static ref::Value strip(const ref::Value& v) {  // drop engine-only annotations for identical()
     return v;
